@@ -125,14 +125,24 @@ class C04(PropBase):
                 lead = LEADS[k % len(LEADS)] if k % 5 else ""
                 ts = "".join(rng.choice("0123456789ABCDEF") for _ in range(12)) if k % 3 == 0 else ""
                 return (lead + ts + b + (";" if k % 2 else "")).encode()
-            ops = ["reset", "case 0"] + ["q msg " + styled(b, k).hex() for k, b in enumerate(bad)]
+            # the intact squitter is asked first, and again now and then: what was accepted before decides nothing about a damaged copy
+            ops = ["reset", "case 0", "q msg " + sq.encode().hex()]
+            again = set()
+            for k, b in enumerate(bad):
+                if k % 97 == 50:
+                    ops.append("q msg " + sq.encode().hex()); again.add(len(ops) - 3)
+                ops.append("q msg " + styled(b, k).hex())
             impl, _, model = run.execute(ops, model=driver_ok)
             rep.evaluations += len(bad)
             rep.traces += 1
             self.corr(rep, impl, model, f"corruptions of {sq}")
             ans = [l for l in impl if l.startswith("msg")]
-            if len(ans) != len(bad):
+            if len(ans) != len(bad) + 1 + len(again):
                 raise core.Broken("harness answer count mismatch", "")
+            if ans[0] == "msg -":
+                self.fail(rep, f"the intact squitter {sq} is not taken as a frame", {"ops": ["q msg " + sq.encode().hex()], "valid": sq})
+                return
+            ans = [a for i, a in enumerate(ans) if i != 0 and i not in again]
             for p, b, a in zip(pats, bad, ans):
                 if must_reject(b):
                     rep.nontriv((sq, p))
